@@ -459,7 +459,16 @@ func c02Run(w *W) {
 				cctx, cancel := ctx, context.CancelFunc(func() {})
 				if perCall && k > 0 {
 					cctx, cancel = context.WithCancel(ctx)
+					me := simrt.Self()
 					c02OnFail = func() {
+						if simrt.Self() != me {
+							// the failing stage runs in a goroutine of its own
+							// (Split(1), Buffer, ...): from there the consumer's
+							// call cannot be known to be past ReadOne's entry
+							// check, and a context that has ended before the call
+							// looks at it deliberately does not end the iterator
+							return
+						}
 						if !endedInFlight {
 							endedInFlight = true
 							w.Fault("call-context-ended-while-user-function-fails")
